@@ -350,6 +350,104 @@ theorem lowerBound_split {tbl : List Id} (hs : Sorted tbl) (key : Id) :
         have hkx := idLe_of_not_lt hf
         exact idLt_asymm (idLt_of_le_of_lt hkx hxy)
 
+/-! ### the binary search finds the lower bound -/
+
+theorem sorted_get_lt {tbl : List Id} (hs : Sorted tbl) {i j : Nat} {x y : Id} (hij : i < j)
+    (hx : tbl[i]? = some x) (hy : tbl[j]? = some y) : idLt x y = true := by
+  obtain ⟨hi, rfl⟩ := List.getElem?_eq_some_iff.mp hx
+  obtain ⟨hj, rfl⟩ := List.getElem?_eq_some_iff.mp hy
+  exact (List.pairwise_iff_getElem.mp hs) i j hi hj hij
+
+theorem lowerBound_char {tbl : List Id} (hs : Sorted tbl) (key : Id) (p : Nat) (hp : p ≤ tbl.length)
+    (hlo : ∀ i, i < p → ∀ x, tbl[i]? = some x → idLt x key = true)
+    (hhi : ∀ i, p ≤ i → ∀ x, tbl[i]? = some x → idLt x key = false) : lowerBound tbl key = p := by
+  obtain ⟨lo, hi, he, hl, h1, h2⟩ := lowerBound_split hs key
+  rw [← hl]
+  by_cases hlt : p < lo.length
+  · have hx : tbl[p]? = some lo[p] := by rw [he, List.getElem?_append_left hlt, List.getElem?_eq_getElem hlt]
+    have := hhi p (Nat.le_refl _) _ hx
+    rw [h1 _ (List.getElem_mem hlt)] at this; cases this
+  · by_cases hgt : lo.length < p
+    · have hlen : lo.length < tbl.length := by omega
+      have hlen' : 0 < hi.length := by rw [he] at hlen; simp at hlen; omega
+      have hx : tbl[lo.length]? = some hi[0] := by
+        rw [he, List.getElem?_append_right (Nat.le_refl _)]; simp [List.getElem?_eq_getElem hlen']
+      have := hlo lo.length hgt _ hx
+      rw [h2 _ (List.getElem_mem hlen')] at this; cases this
+    · omega
+
+theorem bsearch_spec {tbl : List Id} (hs : Sorted tbl) (key : Id) :
+    ∀ (fuel low high : Nat), low ≤ high → high ≤ tbl.length → high - low < fuel →
+      (∀ i, i < low → ∀ x, tbl[i]? = some x → idLt x key = true) →
+      (∀ i, high ≤ i → ∀ x, tbl[i]? = some x → idLt key x = true) →
+      (bsearch tbl key fuel low high).2 = lowerBound tbl key ∧
+      ((bsearch tbl key fuel low high).1 = true ↔ tbl[(bsearch tbl key fuel low high).2]? = some key) := by
+  intro fuel
+  induction fuel with
+  | zero => intro low high _ _ hf; omega
+  | succ fuel ih =>
+    intro low high hlh hhl hf hlo hhi
+    unfold bsearch
+    by_cases hlt : low < high
+    · simp only [hlt, if_true]
+      have hmid : (low + high) / 2 < tbl.length := by omega
+      have hml : low ≤ (low + high) / 2 := by omega
+      have hmh : (low + high) / 2 < high := by omega
+      rw [List.getElem?_eq_getElem hmid]
+      simp only
+      have hxm : tbl[(low + high) / 2]? = some tbl[(low + high) / 2] := List.getElem?_eq_getElem hmid
+      by_cases hless : idLt tbl[(low + high) / 2] key = true
+      · simp only [hless, if_true]
+        apply ih _ _ (by omega) hhl (by omega) _ hhi
+        intro i hi x hx
+        by_cases him : i = (low + high) / 2
+        · subst him; rw [hxm] at hx; cases hx; exact hless
+        · exact idLt_trans (sorted_get_lt hs (by omega) hx hxm) hless
+      · have hless' : idLt tbl[(low + high) / 2] key = false := by simpa using hless
+        simp only [hless', Bool.false_eq_true, if_false]
+        by_cases heq : tbl[(low + high) / 2] = key
+        · simp only [heq, if_true]
+          refine ⟨(lowerBound_char hs key _ (by omega) ?_ ?_).symm, by simp [hxm, heq]⟩
+          · intro i hi x hx
+            have := sorted_get_lt hs hi hx hxm
+            rwa [heq] at this
+          · intro i hi x hx
+            by_cases him : i = (low + high) / 2
+            · subst him; rw [hxm] at hx; cases hx; exact hless'
+            · have := sorted_get_lt hs (by omega : (low + high) / 2 < i) hxm hx
+              rw [heq] at this
+              exact idLt_asymm this
+        · simp only [heq, if_false]
+          have hgt : idLt key tbl[(low + high) / 2] = true := by
+            rcases idLe_of_not_lt hless' with h | h
+            · exact absurd h.symm heq
+            · exact h
+          apply ih _ _ hml (by omega) (by omega) hlo
+          intro i hi x hx
+          by_cases him : i = (low + high) / 2
+          · subst him; rw [hxm] at hx; cases hx; exact hgt
+          · exact idLt_trans hgt (sorted_get_lt hs (by omega) hxm hx)
+    · simp only [hlt, if_false]
+      have hlow : low = high := by omega
+      subst hlow
+      have hlb := lowerBound_char hs key low hhl hlo (fun i hi x hx => idLt_asymm (hhi i hi x hx))
+      refine ⟨hlb.symm, ?_⟩
+      constructor
+      · intro h; cases h
+      · intro h
+        have := hhi low (Nat.le_refl _) key h
+        rw [idLt_irrefl] at this; cases this
+
+theorem lookupPos_spec {tbl : List Id} (hs : Sorted tbl) (key : Id) :
+    (lookupPos tbl key).2 = lowerBound tbl key ∧
+    ((lookupPos tbl key).1 = true ↔ tbl[lowerBound tbl key]? = some key) := by
+  unfold lookupPos
+  obtain ⟨h1, h2⟩ := bsearch_spec hs key (tbl.length + 1) 0 tbl.length (by omega) (Nat.le_refl _) (by omega)
+    (by intro i hi; omega)
+    (by intro i hi x hx; have := (List.getElem?_eq_some_iff.mp hx).1; omega)
+  rw [h1] at h2
+  exact ⟨h1, h2⟩
+
 /-! ### neighbours: specification and per-table correctness -/
 
 /-- `r` is the greatest element of `S` below `key` (or there is none) -/
@@ -390,11 +488,19 @@ theorem neighborsIn_spec {tbl : List Id} (hs : Sorted tbl) (key : Id) :
   obtain ⟨lo, hi, he, hl, h1, h2⟩ := lowerBound_split hs key
   obtain ⟨hslo, hshi, hlohi⟩ := sorted_append (he ▸ hs)
   have hmem : ∀ x, x ∈ tbl ↔ x ∈ lo ∨ x ∈ hi := by intro x; rw [he]; simp
+  obtain ⟨hpos, hfound⟩ := lookupPos_spec hs key
   unfold neighborsIn
+  simp only [hpos]
+  have hfound' : (if (lookupPos tbl key).1 = true then tbl[lowerBound tbl key + 1]? else tbl[lowerBound tbl key]?)
+      = (if tbl[lowerBound tbl key]? = some key then tbl[lowerBound tbl key + 1]? else tbl[lowerBound tbl key]?) := by
+    by_cases h : (lookupPos tbl key).1 = true
+    · simp [h, hfound.mp h]
+    · have h' : ¬ tbl[lowerBound tbl key]? = some key := fun hh => h (hfound.mpr hh)
+      simp [h, h']
+  rw [hfound']
   rw [← hl]
   constructor
   · -- previous
-    simp only
     by_cases h0 : lo.length = 0
     · have : lo = [] := List.length_eq_zero_iff.mp h0
       subst this
@@ -414,7 +520,6 @@ theorem neighborsIn_spec {tbl : List Id} (hs : Sorted tbl) (key : Id) :
         · exact hmax x hxl
         · rw [h2 x hxh] at hxk; cases hxk
   · -- next
-    simp only
     have hget0 : tbl[lo.length]? = hi[0]? := by
       rw [he, List.getElem?_append_right (by omega)]; simp
     have hget1 : tbl[lo.length + 1]? = hi[1]? := by
